@@ -108,11 +108,157 @@ impl<P: Producer> ParIter<P> {
         ParIter(EnumP { base: self.0, offset: 0 })
     }
 
-    pub fn filter<F>(self, f: F) -> Filter<P, F>
+    /// Unindexed adaptors are evaluated eagerly, piece by piece (every piece is still a
+    /// scheduled task); the result is a new indexed iterator over the produced items.
+    fn eager<T>(self, op: &'static str, per_piece: impl Fn(P::IntoIter) -> Vec<T>) -> ParIter<VecP<T>> {
+        let pieces = run_pieces(self.0, op, |piece| per_piece(piece.into_seq()));
+        ParIter(VecP { v: Vec::from_pieces(pieces) })
+    }
+
+    pub fn filter<F>(self, f: F) -> ParIter<VecP<P::Item>>
     where
         F: Fn(&P::Item) -> bool,
     {
-        Filter { base: self.0, f }
+        self.eager("filter", |it| it.filter(|x| f(x)).collect())
+    }
+
+    pub fn filter_map<F, R>(self, f: F) -> ParIter<VecP<R>>
+    where
+        F: Fn(P::Item) -> Option<R>,
+    {
+        self.eager("filter_map", |it| it.filter_map(&f).collect())
+    }
+
+    pub fn flat_map<F, I>(self, f: F) -> ParIter<VecP<I::Item>>
+    where
+        F: Fn(P::Item) -> I,
+        I: IntoIterator,
+    {
+        self.eager("flat_map", |it| it.flat_map(&f).collect())
+    }
+
+    pub fn flat_map_iter<F, I>(self, f: F) -> ParIter<VecP<I::Item>>
+    where
+        F: Fn(P::Item) -> I,
+        I: IntoIterator,
+    {
+        self.flat_map(f)
+    }
+
+    pub fn flatten(self) -> ParIter<VecP<<P::Item as IntoIterator>::Item>>
+    where
+        P::Item: IntoIterator,
+    {
+        self.eager("flatten", |it| it.flatten().collect())
+    }
+
+    pub fn flatten_iter(self) -> ParIter<VecP<<P::Item as IntoIterator>::Item>>
+    where
+        P::Item: IntoIterator,
+    {
+        self.flatten()
+    }
+
+    /// rayon's `fold`: one accumulator per piece.
+    pub fn fold<T, ID, F>(self, identity: ID, fold_op: F) -> ParIter<VecP<T>>
+    where
+        ID: Fn() -> T,
+        F: Fn(T, P::Item) -> T,
+    {
+        self.eager("fold", |it| vec![it.fold(identity(), &fold_op)])
+    }
+
+    pub fn map_with<T: Clone, F, R>(self, init: T, f: F) -> ParIter<VecP<R>>
+    where
+        F: Fn(&mut T, P::Item) -> R,
+    {
+        self.eager("map_with", |it| {
+            let mut st = init.clone();
+            it.map(|x| f(&mut st, x)).collect()
+        })
+    }
+
+    pub fn map_init<T, INIT, F, R>(self, init: INIT, f: F) -> ParIter<VecP<R>>
+    where
+        INIT: Fn() -> T,
+        F: Fn(&mut T, P::Item) -> R,
+    {
+        self.eager("map_init", |it| {
+            let mut st = init();
+            it.map(|x| f(&mut st, x)).collect()
+        })
+    }
+
+    pub fn inspect<F>(self, f: F) -> ParIter<VecP<P::Item>>
+    where
+        F: Fn(&P::Item),
+    {
+        self.eager("inspect", |it| it.inspect(&f).collect())
+    }
+
+    pub fn update<F>(self, f: F) -> ParIter<VecP<P::Item>>
+    where
+        F: Fn(&mut P::Item),
+    {
+        self.eager("update", |it| {
+            it.map(|mut x| {
+                f(&mut x);
+                x
+            })
+            .collect()
+        })
+    }
+
+    pub fn chunks(self, size: usize) -> ParIter<VecP<Vec<P::Item>>> {
+        assert!(size != 0, "chunk_size must not be zero");
+        let all: Vec<P::Item> = self.collect();
+        let mut out = Vec::new();
+        let mut cur = Vec::with_capacity(size);
+        for x in all {
+            cur.push(x);
+            if cur.len() == size {
+                out.push(std::mem::replace(&mut cur, Vec::with_capacity(size)));
+            }
+        }
+        if !cur.is_empty() {
+            out.push(cur);
+        }
+        ParIter(VecP { v: out })
+    }
+
+    pub fn rev(self) -> ParIter<RevP<P>> {
+        ParIter(RevP { base: self.0 })
+    }
+
+    pub fn skip(self, n: usize) -> ParIter<P> {
+        let n = n.min(self.0.len());
+        ParIter(self.0.split_at(n).1)
+    }
+
+    pub fn take(self, n: usize) -> ParIter<P> {
+        let n = n.min(self.0.len());
+        ParIter(self.0.split_at(n).0)
+    }
+
+    pub fn zip_eq<Z: IntoParallelIterator>(self, other: Z) -> ParIter<ZipP<P, Z::Prod>> {
+        let o = other.into_par_iter();
+        assert_eq!(self.0.len(), o.0.len(), "iterators must have the same length");
+        ParIter(ZipP { a: self.0, b: o.0 })
+    }
+
+    pub fn chain<Z: IntoParallelIterator<Prod = Q>, Q: Producer<Item = P::Item>>(self, other: Z) -> ParIter<VecP<P::Item>> {
+        let mut v: Vec<P::Item> = self.collect();
+        let w: Vec<P::Item> = other.into_par_iter().collect();
+        v.extend(w);
+        ParIter(VecP { v })
+    }
+
+    pub fn len(&self) -> usize {
+        self.0.len()
+    }
+
+    pub fn is_empty(&self) -> bool {
+        self.0.len() == 0
     }
 
     pub fn with_min_len(self, _min: usize) -> Self {
@@ -159,6 +305,167 @@ impl<P: Producer> ParIter<P> {
         run_pieces(self.0, "count", |piece| piece.into_seq().count()).into_iter().sum()
     }
 
+    pub fn for_each_with<T: Clone, F>(self, init: T, f: F)
+    where
+        F: Fn(&mut T, P::Item),
+    {
+        run_pieces(self.0, "for_each_with", |piece| {
+            let mut st = init.clone();
+            piece.into_seq().for_each(|x| f(&mut st, x))
+        });
+    }
+
+    pub fn for_each_init<T, INIT, F>(self, init: INIT, f: F)
+    where
+        INIT: Fn() -> T,
+        F: Fn(&mut T, P::Item),
+    {
+        run_pieces(self.0, "for_each_init", |piece| {
+            let mut st = init();
+            piece.into_seq().for_each(|x| f(&mut st, x))
+        });
+    }
+
+    pub fn try_for_each<F, E>(self, f: F) -> Result<(), E>
+    where
+        F: Fn(P::Item) -> Result<(), E>,
+    {
+        let mut first: Vec<(usize, E)> = Vec::new();
+        let mut idx = 0usize;
+        let res = run_pieces(self.0, "try_for_each", |piece| {
+            let my = idx;
+            idx += 1;
+            for x in piece.into_seq() {
+                if let Err(e) = f(x) {
+                    return Some((my, e));
+                }
+            }
+            None
+        });
+        for r in res.into_iter().flatten() {
+            first.push(r);
+        }
+        // rayon returns *some* error; report the one of the leftmost piece (a stable choice)
+        first.sort_by_key(|(i, _)| *i);
+        match first.into_iter().next() {
+            Some((_, e)) => Err(e),
+            None => Ok(()),
+        }
+    }
+
+    pub fn collect_into_vec(self, target: &mut Vec<P::Item>) {
+        let v: Vec<P::Item> = self.collect();
+        *target = v;
+    }
+
+    pub fn unzip<A, B>(self) -> (Vec<A>, Vec<B>)
+    where
+        P: Producer<Item = (A, B)>,
+    {
+        let v: Vec<(A, B)> = self.collect();
+        v.into_iter().unzip()
+    }
+
+    pub fn find_first<F>(self, f: F) -> Option<P::Item>
+    where
+        F: Fn(&P::Item) -> bool,
+    {
+        let res = run_pieces(self.0, "find_first", |piece| piece.into_seq().find(|x| f(x)));
+        res.into_iter().flatten().next()
+    }
+
+    /// `find_any` may return any match: the simulator picks among the pieces' first matches.
+    pub fn find_any<F>(self, f: F) -> Option<P::Item>
+    where
+        F: Fn(&P::Item) -> bool,
+    {
+        let res = run_pieces(self.0, "find_any", |piece| piece.into_seq().find(|x| f(x)));
+        let mut hits: Vec<P::Item> = res.into_iter().flatten().collect();
+        if hits.is_empty() {
+            return None;
+        }
+        let k = sim::decide_merge(hits.len() + 1) % hits.len();
+        Some(hits.swap_remove(k))
+    }
+
+    pub fn position_first<F>(self, f: F) -> Option<usize>
+    where
+        F: Fn(P::Item) -> bool,
+    {
+        let v: Vec<P::Item> = self.collect();
+        v.into_iter().position(f)
+    }
+
+    pub fn position_any<F>(self, f: F) -> Option<usize>
+    where
+        F: Fn(P::Item) -> bool,
+    {
+        self.position_first(f)
+    }
+
+    pub fn min_by<F>(self, f: F) -> Option<P::Item>
+    where
+        F: Fn(&P::Item, &P::Item) -> std::cmp::Ordering,
+    {
+        let v: Vec<P::Item> = self.collect();
+        v.into_iter().min_by(|a, b| f(a, b))
+    }
+
+    pub fn max_by<F>(self, f: F) -> Option<P::Item>
+    where
+        F: Fn(&P::Item, &P::Item) -> std::cmp::Ordering,
+    {
+        let v: Vec<P::Item> = self.collect();
+        v.into_iter().max_by(|a, b| f(a, b))
+    }
+
+    pub fn min(self) -> Option<P::Item>
+    where
+        P::Item: Ord,
+    {
+        self.min_by(|a, b| a.cmp(b))
+    }
+
+    pub fn max(self) -> Option<P::Item>
+    where
+        P::Item: Ord,
+    {
+        self.max_by(|a, b| a.cmp(b))
+    }
+
+    pub fn min_by_key<K: Ord, F>(self, f: F) -> Option<P::Item>
+    where
+        F: Fn(&P::Item) -> K,
+    {
+        self.min_by(|a, b| f(a).cmp(&f(b)))
+    }
+
+    pub fn max_by_key<K: Ord, F>(self, f: F) -> Option<P::Item>
+    where
+        F: Fn(&P::Item) -> K,
+    {
+        self.max_by(|a, b| f(a).cmp(&f(b)))
+    }
+
+    pub fn product<S>(self) -> S
+    where
+        S: std::iter::Product<P::Item> + std::iter::Product<S>,
+    {
+        let parts = run_pieces(self.0, "product", |piece| piece.into_seq().product::<S>());
+        match reduce_tree(parts, |a, b| [a, b].into_iter().product::<S>()) {
+            Some(s) => s,
+            None => std::iter::empty::<S>().product(),
+        }
+    }
+
+    pub fn reduce_with<OP>(self, op: OP) -> Option<P::Item>
+    where
+        OP: Fn(P::Item, P::Item) -> P::Item,
+    {
+        let parts = run_pieces(self.0, "reduce_with", |piece| piece.into_seq().reduce(&op));
+        reduce_tree(parts.into_iter().flatten().collect(), &op)
+    }
+
     pub fn all<F>(self, f: F) -> bool
     where
         F: Fn(P::Item) -> bool,
@@ -196,65 +503,6 @@ impl<'a, T: 'a + Clone, P: Producer<Item = &'a T>> ParIter<P> {
 
     pub fn copied(self) -> ParIter<MapP<P, fn(&'a T) -> T>> {
         self.cloned()
-    }
-}
-
-pub struct Filter<P, F> {
-    base: P,
-    f: F,
-}
-
-impl<P: Producer, F: Fn(&P::Item) -> bool> Filter<P, F> {
-    pub fn collect<C: FromParallelIterator<P::Item>>(self) -> C {
-        let f = self.f;
-        let pieces = run_pieces(self.base, "filter.collect", |piece| {
-            piece.into_seq().filter(|x| f(x)).collect::<Vec<_>>()
-        });
-        C::from_pieces(pieces)
-    }
-
-    pub fn count(self) -> usize {
-        let f = self.f;
-        run_pieces(self.base, "filter.count", |piece| piece.into_seq().filter(|x| f(x)).count())
-            .into_iter()
-            .sum()
-    }
-
-    pub fn map<G, R>(self, g: G) -> FilterMap<P, F, G>
-    where
-        G: Fn(P::Item) -> R,
-    {
-        FilterMap { base: self.base, f: self.f, g }
-    }
-}
-
-pub struct FilterMap<P, F, G> {
-    base: P,
-    f: F,
-    g: G,
-}
-
-impl<P: Producer, R, F: Fn(&P::Item) -> bool, G: Fn(P::Item) -> R> FilterMap<P, F, G> {
-    pub fn collect<C: FromParallelIterator<R>>(self) -> C {
-        let (f, g) = (self.f, self.g);
-        let pieces = run_pieces(self.base, "filter.map.collect", |piece| {
-            piece.into_seq().filter(|x| f(x)).map(&g).collect::<Vec<_>>()
-        });
-        C::from_pieces(pieces)
-    }
-
-    pub fn sum<S>(self) -> S
-    where
-        S: Sum<R> + Sum<S>,
-    {
-        let (f, g) = (self.f, self.g);
-        let parts = run_pieces(self.base, "filter.map.sum", |piece| {
-            piece.into_seq().filter(|x| f(x)).map(&g).sum::<S>()
-        });
-        match reduce_tree(parts, |a, b| [a, b].into_iter().sum::<S>()) {
-            Some(s) => s,
-            None => std::iter::empty::<S>().sum(),
-        }
     }
 }
 
@@ -506,6 +754,186 @@ impl<P: Producer> Producer for EnumP<P> {
     }
     fn describe(&self) -> String {
         format!("enumerate({})", self.base.describe())
+    }
+}
+
+pub struct RevP<P> {
+    base: P,
+}
+
+impl<P: Producer> Producer for RevP<P> {
+    type Item = P::Item;
+    type IntoIter = std::iter::Rev<std::vec::IntoIter<P::Item>>;
+    fn len(&self) -> usize {
+        self.base.len()
+    }
+    fn split_at(self, index: usize) -> (Self, Self) {
+        let n = self.base.len();
+        let (l, r) = self.base.split_at(n - index);
+        (RevP { base: r }, RevP { base: l })
+    }
+    fn into_seq(self) -> Self::IntoIter {
+        self.base.into_seq().collect::<Vec<_>>().into_iter().rev()
+    }
+    fn describe(&self) -> String {
+        format!("rev({})", self.base.describe())
+    }
+}
+
+pub struct WindowsP<'a, T> {
+    pub(crate) s: &'a [T],
+    pub(crate) size: usize,
+}
+
+impl<'a, T> Producer for WindowsP<'a, T> {
+    type Item = &'a [T];
+    type IntoIter = std::slice::Windows<'a, T>;
+    fn len(&self) -> usize {
+        (self.s.len() + 1).saturating_sub(self.size)
+    }
+    fn split_at(self, index: usize) -> (Self, Self) {
+        let left_end = (index + self.size - 1).min(self.s.len());
+        (WindowsP { s: &self.s[..left_end], size: self.size }, WindowsP { s: &self.s[index.min(self.s.len())..], size: self.size })
+    }
+    fn into_seq(self) -> Self::IntoIter {
+        self.s.windows(self.size)
+    }
+    fn describe(&self) -> String {
+        "windows".into()
+    }
+}
+
+pub struct ChunksExactP<'a, T> {
+    pub(crate) s: &'a [T],
+    pub(crate) size: usize,
+}
+
+impl<'a, T> Producer for ChunksExactP<'a, T> {
+    type Item = &'a [T];
+    type IntoIter = std::slice::ChunksExact<'a, T>;
+    fn len(&self) -> usize {
+        self.s.len() / self.size
+    }
+    fn split_at(self, index: usize) -> (Self, Self) {
+        let (a, b) = self.s.split_at(index * self.size);
+        (ChunksExactP { s: a, size: self.size }, ChunksExactP { s: b, size: self.size })
+    }
+    fn into_seq(self) -> Self::IntoIter {
+        self.s.chunks_exact(self.size)
+    }
+    fn describe(&self) -> String {
+        "chunks_exact".into()
+    }
+}
+
+pub struct ChunksExactMutP<'a, T> {
+    pub(crate) s: &'a mut [T],
+    pub(crate) size: usize,
+}
+
+impl<'a, T> Producer for ChunksExactMutP<'a, T> {
+    type Item = &'a mut [T];
+    type IntoIter = std::slice::ChunksExactMut<'a, T>;
+    fn len(&self) -> usize {
+        self.s.len() / self.size
+    }
+    fn split_at(self, index: usize) -> (Self, Self) {
+        let (a, b) = self.s.split_at_mut(index * self.size);
+        (ChunksExactMutP { s: a, size: self.size }, ChunksExactMutP { s: b, size: self.size })
+    }
+    fn into_seq(self) -> Self::IntoIter {
+        self.s.chunks_exact_mut(self.size)
+    }
+    fn describe(&self) -> String {
+        "chunks_exact_mut".into()
+    }
+}
+
+/// Marker traits so that `use rayon::iter::ParallelIterator` and generic bounds keep compiling.
+pub trait ParallelIterator {
+    type Item;
+}
+
+impl<P: Producer> ParallelIterator for ParIter<P> {
+    type Item = P::Item;
+}
+
+pub trait IndexedParallelIterator: ParallelIterator {}
+
+impl<P: Producer> IndexedParallelIterator for ParIter<P> {}
+
+pub trait ParallelBridge: Sized {
+    type Item;
+    fn par_bridge(self) -> ParIter<VecP<Self::Item>>;
+}
+
+impl<I: Iterator> ParallelBridge for I {
+    type Item = I::Item;
+    fn par_bridge(self) -> ParIter<VecP<I::Item>> {
+        ParIter(VecP { v: self.collect() })
+    }
+}
+
+pub trait ParallelExtend<T> {
+    fn par_extend<I: IntoParallelIterator>(&mut self, par_iter: I)
+    where
+        I::Prod: Producer<Item = T>;
+}
+
+impl<T> ParallelExtend<T> for Vec<T> {
+    fn par_extend<I: IntoParallelIterator>(&mut self, par_iter: I)
+    where
+        I::Prod: Producer<Item = T>,
+    {
+        let v: Vec<T> = par_iter.into_par_iter().collect();
+        self.extend(v);
+    }
+}
+
+macro_rules! range_impl {
+    ($($t:ty),*) => {$(
+        impl IntoParallelIterator for Range<$t> {
+            type Prod = VecP<$t>;
+            fn into_par_iter(self) -> ParIter<VecP<$t>> {
+                ParIter(VecP { v: self.collect() })
+            }
+        }
+        impl IntoParallelIterator for std::ops::RangeInclusive<$t> {
+            type Prod = VecP<$t>;
+            fn into_par_iter(self) -> ParIter<VecP<$t>> {
+                ParIter(VecP { v: self.collect() })
+            }
+        }
+    )*};
+}
+range_impl!(u8, u16, u32, u64, i8, i16, i32, i64, isize);
+
+impl IntoParallelIterator for std::ops::RangeInclusive<usize> {
+    type Prod = RangeP;
+    fn into_par_iter(self) -> ParIter<RangeP> {
+        let (a, b) = self.into_inner();
+        ParIter(RangeP { r: a..b.saturating_add(1) })
+    }
+}
+
+impl<T, const N: usize> IntoParallelIterator for [T; N] {
+    type Prod = VecP<T>;
+    fn into_par_iter(self) -> ParIter<VecP<T>> {
+        ParIter(VecP { v: self.into_iter().collect() })
+    }
+}
+
+impl<'a, T, const N: usize> IntoParallelIterator for &'a mut [T; N] {
+    type Prod = SliceMutP<'a, T>;
+    fn into_par_iter(self) -> ParIter<SliceMutP<'a, T>> {
+        ParIter(SliceMutP { s: &mut self[..] })
+    }
+}
+
+impl<T> IntoParallelIterator for Option<T> {
+    type Prod = VecP<T>;
+    fn into_par_iter(self) -> ParIter<VecP<T>> {
+        ParIter(VecP { v: self.into_iter().collect() })
     }
 }
 
